@@ -395,6 +395,21 @@ func UniverseC13() *Universe {
 		panic(err)
 	}
 	vhook.Discard()
+	// a deleter and, pre-executed while it is pending, a re-creator and a second deleter of the key:
+	// both consume the version the deletion leaves
+	dB := mk("dB", "B", "del k1", In{Tx: root, Offset: 1})
+	if err := b.W.SubmitStrict(CloneTx(dB)); err != nil {
+		panic(err)
+	}
+	mk("pC3", "C", "put k1 again", In{Tx: root, Offset: 2})
+	mk("dD3", "D", "del k1", In{Tx: root, Offset: 3})
+	if err := b.W.State.Walk(b.U.ID("g"), false); err != nil {
+		panic(err)
+	}
+	if err := b.W.State.Walk(b.U.ID("k1"), false); err != nil {
+		panic(err)
+	}
+	vhook.Discard()
 	// fee payers
 	tr("fB", "B", []In{{Tx: root, Offset: 1}}, []Out{{To: "A", Amount: "997"}, {To: "$", Amount: "3"}})
 	tr("fC", "C", []In{{Tx: root, Offset: 2}}, []Out{{To: "A", Amount: "998"}, {To: "$", Amount: "2"}})
